@@ -99,12 +99,32 @@ func GenTimeoutWorld(ch *Choices, variant int, thorough bool) (*IntegWorld, stri
 		}
 		w.Drivers = append(w.Drivers, DriverSpec{Kind: "task", Target: "s1"})
 	}
-	if ch.Bool(1, 4, "as-stage") {
-		w.Graph = &GraphSpec{Name: "root", Stages: []*StageSpec{{Name: "t0", Allow: ch.Bool(1, 3, "stage-allow")}}}
+	if ch.Bool(1, 2, "as-stage") {
+		// a pipeline around it: a dependant of the task with the timeout and an independent chain,
+		// so that what a timeout does to the rest of the run is visible
+		g := &GraphSpec{Name: "root", Stages: []*StageSpec{{Name: "t0", Allow: ch.Bool(1, 2, "stage-allow")}}}
 		if len(w.Tasks) > 1 {
-			w.Graph.Stages = append(w.Graph.Stages, &StageSpec{Name: "s1"})
+			g.Stages = append(g.Stages, &StageSpec{Name: "s1"})
 		}
+		add := func(name string, deps ...string) {
+			w.Tasks = append(w.Tasks, &TaskSpec{Name: name, NCmd: 1})
+			w.Plans[execID(name, "cmd", 0, "")] = &ExecPlan{DurMS: ch.Choose(400, "aux-dur")}
+			g.Stages = append(g.Stages, &StageSpec{Name: name, Deps: deps})
+		}
+		add("d1", "t0")
+		if ch.Bool(1, 2, "chain") {
+			add("i1")
+			add("i2", "i1")
+		}
+		w.Graph = g
 		w.Drivers = []DriverSpec{{Kind: "pipeline", Target: "root"}}
+		if ch.Bool(1, 2, "via-config") {
+			// built by the configuration loader, optionally with a stage-level dir
+			w.ViaConfig = true
+			if ch.Bool(1, 2, "stage-dir") {
+				g.Stages[0].Dir = "/vs/t0dir"
+			}
+		}
 	}
 	return w, fmt.Sprintf("%s@%s", shape, id)
 }
@@ -245,6 +265,43 @@ func runFaultJob(c *Ctl, job *Job, idx int, res *RunResult) {
 		prof.WAdvance = 1
 		prof.Checks["C08"] = true
 		res.Sample = map[string]interface{}{"world": w.Summary(), "config": w.ConfigMap()}
+	case "c06s":
+		// a task shared by several stages, with per-stage results of its condition, hooks and commands
+		w = GenOverrideWorld(c.Ch, thorough)
+		t := w.Tasks[0]
+		t.Cond = c.Ch.Bool(2, 3, "cond")
+		t.NBefore = c.Ch.Choose(2, "nbefore")
+		t.NAfter = c.Ch.Choose(2, "nafter")
+		t.Allow = c.Ch.Bool(1, 4, "allow")
+		for _, g := range w.AllGraphs() {
+			for _, s := range g.Stages {
+				s.Dir = ""
+				if t.Cond {
+					w.Plans[execID(t.Name, "cond", 0, "")+"@"+s.Name] = &ExecPlan{Exit: []int{0, 0, 1, 3}[c.Ch.Choose(4, "cond-exit")]}
+				}
+				for _, p := range taskPositions(t) {
+					if p.block == "cmd" && c.Ch.Bool(1, 5, "cmd-fails") {
+						w.Plans[execID(t.Name, p.block, p.idx, p.v)+"@"+s.Name] = &ExecPlan{Exit: genExit(c.Ch), DurMS: c.Ch.Choose(60, "dur")}
+					}
+					if p.block == "before" && c.Ch.Bool(1, 6, "before-fails") {
+						w.Plans[execID(t.Name, p.block, p.idx, p.v)+"@"+s.Name] = &ExecPlan{Exit: genExit(c.Ch)}
+					}
+				}
+			}
+		}
+		// only pipelines (a direct run has no per-stage identity)
+		var ds []DriverSpec
+		for _, d := range w.Drivers {
+			if d.Kind == "pipeline" {
+				ds = append(ds, d)
+			}
+		}
+		w.Drivers = ds
+		prof.UseRunEnter = true
+		prof.UseStageStart = true
+		prof.WAdvance = 1
+		prof.Checks["C06S"] = true
+		res.Sample = map[string]interface{}{"world": w.Summary()}
 	case "c04i":
 		// C04 with the real runner: parallel stages, also stages sharing one task
 		if idx%16 == 7 {
@@ -307,6 +364,8 @@ func runFaultJob(c *Ctl, job *Job, idx int, res *RunResult) {
 	x := e.computeExpect()
 	if prof.Checks["C13"] {
 		e.checkC13(x)
+		e.checkC01Overlap()
+		e.checkC03Integ()
 	}
 	if prof.Checks["C12"] {
 		e.checkC12(x)
@@ -317,6 +376,9 @@ func runFaultJob(c *Ctl, job *Job, idx int, res *RunResult) {
 	}
 	if prof.Checks["C08"] {
 		e.checkC08()
+	}
+	if prof.Checks["C06S"] {
+		e.checkC06Shared()
 	}
 	if prof.Checks["C19"] {
 		e.checkC19()
